@@ -164,6 +164,7 @@ def run_real(case):
         except AssertionError:
             colls.append(-1)
     out["resolved"] = resolved
+    out["colls"] = colls      # which dataset's collator collated each batch (-1: the collator's assertion failed)
     # negative indices into the concat dataset: -1 .. -(total+2)
     total = len(s2.dataset)
     negs = []
